@@ -89,7 +89,7 @@ def run(c):
         "process in starlark.ExecFile's freeze)",
     ]
     c.coverage["rule"] = (
-        "generated dawn projects: each of 33 unit kinds alone (recursion, mutual recursion, closures, defaults, nested defs / "
+        "generated dawn projects: each of 35 unit kinds alone (recursion, mutual recursion, closures, defaults, nested defs / "
         "lambdas / comprehensions, containers of 0..3000 elements, shared / cyclic / 1500-deep data, a recursive function in front "
         "of shared lists / dicts / sets / functions, sets and dicts of 12..40-byte strings and bytes as globals / defaults / free "
         "variables, every predeclared kind, "
